@@ -147,6 +147,7 @@ func opsSuite(t *testing.T, rec *ev.Rec) {
 		o := &gen.Opts{MaxDepth: 3, MaxAVPs: 3}
 		var trace []string
 		var lastWant []byte
+		lateMember := false
 		steps := 1 + r.IntN(12)
 		for s := 0; s < steps; s++ {
 			def := vis[r.IntN(len(vis))]
@@ -164,7 +165,7 @@ func opsSuite(t *testing.T, rec *ev.Rec) {
 			if n.Kind == refcodec.Address && gen.RiskAddress(n.Fam, n.B) {
 				continue
 			}
-			op := r.IntN(10)
+			op := r.IntN(11)
 			var err error
 			p, bad := guard(func() {
 				switch op {
@@ -284,6 +285,26 @@ func opsSuite(t *testing.T, rec *ev.Rec) {
 						m.AddAVP(diam.NewAVP(oc, 0x40, 0, outer))
 					}
 					ref = append(ref, on)
+				case 10:
+					// a member added to a group that has already joined the message (the
+					// message cannot know): what is emitted is still the image of what the
+					// message holds now, its length field included. Header.MessageLength is
+					// not brought up to date by this (it is by NewAVP / AddAVP / InsertAVP /
+					// Marshal on the message), so that comparison ends here for this message.
+					trace = append(trace, "NewAVP(group), then a member added to the group")
+					grp := &diam.GroupedAVP{}
+					gc := 74000 + r.Uint32N(1000)
+					if _, err = m.NewAVP(gc, 0x40, 0, grp); err != nil {
+						return
+					}
+					gn := &refcodec.Node{Code: gc, Flags: 0x40, Kind: refcodec.Grouped}
+					for k := 1 + r.IntN(2); k > 0; k-- {
+						leaf := &refcodec.Node{Code: 75000 + r.Uint32N(10), Flags: 0x40, Kind: refcodec.OctetString, B: randASCII(r, r.IntN(9))}
+						grp.AddAVP(diam.NewAVP(leaf.Code, leaf.Flags, 0, datatype.OctetString(leaf.B)))
+						gn.Kids = append(gn.Kids, leaf)
+					}
+					ref = append(ref, gn)
+					lateMember = true
 				}
 			})
 			if len(trace) == 0 {
@@ -304,7 +325,7 @@ func opsSuite(t *testing.T, rec *ev.Rec) {
 				c.Fail(sig, nil, trace, "Serialize after %v: err=%v %s", trace, err, p)
 				return
 			}
-			if int(m.Header.MessageLength) != len(wire) || m.Len() != len(wire) {
+			if (!lateMember && int(m.Header.MessageLength) != len(wire)) || m.Len() != len(wire) {
 				c.Fail(ev.Sig{"op": "length-bookkeeping", "step": sig["step"]}, wire, trace, "after %v: Header.MessageLength=%d, Len()=%d, serialised size=%d", trace, m.Header.MessageLength, m.Len(), len(wire))
 				return
 			}
